@@ -141,6 +141,15 @@ Theorem C16_completed_ok_durable : forall meta ops segsize,
 Proof. exact completed_ok_durable. Qed.
 Print Assumptions C16_completed_ok_durable.
 
+(* the ops-level oracle of the runner: a read of the directory the writer produced satisfies the
+   specification of the script (spec_read_ok compares metadata, hard state and entry log with
+   spec_run); ./check C16 applies it to every read of a fully synced real directory *)
+Theorem C16_spec_read_ok : forall meta ops segsize,
+  meta_ok meta -> Forall op_ok ops -> segsize mod 8 = 0 ->
+  spec_read_ok meta ops (read_all true 0 0 (map file_bytes (w_files segsize (w_run meta ops)))) = true.
+Proof. exact spec_read_ok_written. Qed.
+Print Assumptions C16_spec_read_ok.
+
 (* a vote granted in an already known term (no entries) is durable when Save returns … *)
 Example C16_vote_only_durable_ex :
   let ops := [OpSave (mkhs 2 0 0) []; OpSave (mkhs 2 3 0) []] in
